@@ -489,6 +489,33 @@ theorem C22_revert_slot_invariant (c : CellIn) (slot : Box) (hd : c.deco.ok)
     (revert c slot).x + (revert c slot).w ≤ slot.x + slot.w ∧ (revert c slot).y + (revert c slot).h ≤ slot.y + slot.h ∧
     c.w ≤ (revert c slot).w ∧ c.h ≤ (revert c slot).h := revert_slot_invariant c slot hd hw hh
 
+/-- **container padding and final shift**: `Layout` pads the content box (`padding.Left/Right/Top/Bottom ≥ 0`), sizes the
+    container to `padding + content + padding` and shifts every cell by `(padding.Left, padding.Top)` (plus the
+    container's own position): a slot inside the content box ends inside the container.  (For a rectangular container
+    whose size is not overridden — the two findings below are exactly the cases where the container is *not* sized
+    that way.) -/
+theorem shift_inside (b : B) (mainLen crossLen pl pr pt pb ox oy : Rat)
+    (h : 0 ≤ b.m ∧ 0 ≤ b.c ∧ b.m + b.ms ≤ mainLen ∧ b.c + b.cs ≤ crossLen)
+    (hpr : 0 ≤ pr) (hpb : 0 ≤ pb) (hpl : 0 ≤ pl) (hpt : 0 ≤ pt) :
+    ox ≤ ox + pl + b.m ∧ oy ≤ oy + pt + b.c ∧
+    (ox + pl + b.m) + b.ms ≤ ox + (pl + mainLen + pr) ∧ (oy + pt + b.c) + b.cs ≤ oy + (pt + crossLen + pb) := by
+  obtain ⟨h1, h2, h3, h4⟩ := h
+  exact ⟨by linarith, by linarith, by linarith, by linarith⟩
+
+/-- Non-vacuity of the even-layout theorems: five cells in a 3-column grid with gaps 10 / 20 -/
+example : (evenly [⟨30, 10⟩, ⟨50, 20⟩, ⟨10, 5⟩, ⟨70, 8⟩, ⟨20, 40⟩] 3 2 10 20).lines.flatten.Pairwise (sep 10 20) :=
+  evenly_sep _ 3 2 10 20 (by intro s hs; simp at hs; rcases hs with rfl | rfl | rfl | rfl | rfl <;> norm_num)
+    (by norm_num) (by norm_num)
+
+/-- Non-vacuity of the dynamic-layout theorems: the partition [[a, b], [c]] of three cells -/
+example : (dynamic [[⟨30, 10⟩, ⟨50, 20⟩], [⟨10, 5⟩]] 10 20).lines.flatten.Pairwise (sep 10 20) :=
+  dynamic_sep _ 10 20 (by
+    intro l hl s hs
+    simp at hl
+    rcases hl with rfl | rfl <;> simp at hs
+    · rcases hs with rfl | rfl <;> norm_num
+    · subst hs; norm_num) (by norm_num) (by norm_num)
+
 /-! ### the two defects the check found on the unchanged code (both: a cell ends outside its grid container) -/
 
 /-- `g: {width: 100; grid-rows: 1; a; b; c}` — three 53×66 cells, gap 40, padding 60: the content needs 359 px, the
